@@ -203,7 +203,12 @@ type wb struct {
 	// sibKilled[(cid,fwd)]: a SIBLING stream of the same connection was broken and re-created since this stream was
 	// created / re-created.  Only then may the code take the "another stream already handles this epoch" branch and
 	// skip failPendingRequests (reported defect of the unchanged tree, tolerated); in every other case a broken
-	// stream must fail all of its pending entries before it is re-created.
+	// stream must fail all of its pending entries before it is re-created.  Justified by theorems of Props/C18.lean:
+	// `break_fails_stream` (sib = false => the break wins the CAS and fails every pending entry of the stream exactly
+	// once, none survives) and `stale_epoch_survivors` (a break that does not win implies a sibling of the same
+	// connection won the CAS since this stream's last (re-)creation; then exactly the entries pending on this stream
+	// survive, un-failed).  sibKilled over-approximates the model's ghost flag `Stream.sib` (set only when the
+	// sibling WON), so sibKilled = false implies sib = false.
 	sibKilled map[[2]int]bool
 }
 
